@@ -76,6 +76,7 @@ type UtxoVM struct {
 	OfflineTxChan     chan []*pb.Transaction   // 未确认tx的通知chan
 	PrevFoundKeyCache *cache.LRUCache          // 上一次找到的可用utxo key，用于加速GenerateTx
 	utxoTotal         *big.Int                 // 总资产
+	mutexTotal        sync.Mutex               // 保护utxoTotal: 区块执行改写它的同时, GetTotal/GetMeta可能在别的协程里读
 	cryptoClient      crypto_base.CryptoClient // 加密实例
 	ModifyBlockAddr   string                   // 可修改区块链的监管地址
 	BalanceCache      *cache.LRUCache          //余额cache,加速GetBalance查询
@@ -295,18 +296,23 @@ func MakeUtxo(sctx *context.StateCtx, metaHandle *meta.Meta, cachesize, tmplockS
 }
 
 func (uv *UtxoVM) UpdateUtxoTotal(delta *big.Int, batch kvdb.Batch, inc bool) {
+	uv.mutexTotal.Lock()
 	if inc {
 		uv.utxoTotal = uv.utxoTotal.Add(uv.utxoTotal, delta)
 	} else {
 		uv.utxoTotal = uv.utxoTotal.Sub(uv.utxoTotal, delta)
 	}
-	batch.Put(append([]byte(pb.MetaTablePrefix), []byte(UTXOTotalKey)...), uv.utxoTotal.Bytes())
+	totalBytes := uv.utxoTotal.Bytes()
+	uv.mutexTotal.Unlock()
+	batch.Put(append([]byte(pb.MetaTablePrefix), []byte(UTXOTotalKey)...), totalBytes)
 }
 
 // ReloadTotal reads the total again from the meta table; used after a block batch that had
 // already moved the in-memory total could not be written
 func (uv *UtxoVM) ReloadTotal() {
 	utxoTotalBytes, findTotalErr := uv.metaHandle.MetaTable.Get([]byte(UTXOTotalKey))
+	uv.mutexTotal.Lock()
+	defer uv.mutexTotal.Unlock()
 	if findTotalErr == nil {
 		total := big.NewInt(0)
 		total.SetBytes(utxoTotalBytes)
@@ -552,7 +558,9 @@ func (uv *UtxoVM) Close() {
 // GetTotal 返回当前vm的总资产
 func (uv *UtxoVM) GetTotal() *big.Int {
 	result := big.NewInt(0)
+	uv.mutexTotal.Lock()
 	result.SetBytes(uv.utxoTotal.Bytes())
+	uv.mutexTotal.Unlock()
 	return result
 }
 
